@@ -5,7 +5,9 @@ EXTENDS Entry, Json
 CONSTANTS Keys, Vals, Ety, Eid
 VARIABLE fs
 
-Ops == [op : {"set_field", "setitem"}, k : Keys, v : Vals]
+\* a value is the pair (text, start line) of the Field object: set_field hands in a Field WITH a line ("1", "2"),
+\* item assignment builds a Field WITHOUT one ("1~", "2~") - the stored field must be exactly the one handed in
+Ops == [op : {"set_field"}, k : Keys, v : Vals] \cup [op : {"setitem"}, k : Keys, v : {x \o "~" : x \in Vals}]
        \cup [op : {"pop", "delitem", "get", "contains"}, k : Keys, v : {"-"}]
        \cup [op : {"getitem"}, k : Keys \cup Reserved, v : {"-"}]
 
